@@ -67,17 +67,19 @@ func runC12(r *Report) {
 	}
 	for _, cs := range calls {
 		f := cs.Parent()
-		r.Check(f == gm || f == rt, "R1", "MetadataComplete-caller/"+fname(f), cs.Pos(), "a designated caller of MetadataComplete", "MetadataComplete is called from "+fname(f)+": only ReadTorrent and gotMetadata compute the info-hash of the bytes they publish")
+		r.Check(f == gm || f == rt || (relPkg(f) == "tor" && (p.inUnitOf(f, gm) || p.inUnitOf(f, rt))), "R1", "MetadataComplete-caller/"+fname(f), cs.Pos(), "a designated caller of MetadataComplete", "MetadataComplete is called from "+fname(f)+": only ReadTorrent and gotMetadata compute the info-hash of the bytes they publish")
 	}
 	r.Sentinel("R1", len(calls), 2)
 	// ---- R2: hash gate in gotMetadata
 	r.Fn(gm)
+	// the publication: the call of MetadataComplete in gotMetadata or in a private helper of it (checkMetadata)
 	var call ssa.Instruction
-	allInstrs(gm, func(in ssa.Instruction) {
-		if calleeOf(in) == mc {
-			call = in
+	for _, cs := range calls {
+		if f := cs.Parent(); f == gm || (relPkg(f) == "tor" && p.inUnitOf(f, gm)) {
+			call = cs.(ssa.Instruction)
+			r.Fn(f)
 		}
-	})
+	}
 	if call == nil {
 		r.Fail("R2", "gotMetadata/MetadataComplete-call", gm.Pos(), "gotMetadata no longer calls MetadataComplete")
 	} else {
@@ -108,117 +110,182 @@ func runC12(r *Report) {
 		}
 		r.Check(gated, "R2", "gotMetadata/hash-gate", call.Pos(), "metadata is published only when sha1.Sum(t.Info) equals t.Hash", "the call of MetadataComplete in gotMetadata is not dominated by sha1.Sum(t.Info) == t.Hash: forged metadata becomes the torrent")
 		// all blocks present: dominated by the exit edge of a loop whose body returns when a bit is missing
-		allPresent := false
-		// (a) a loop that tests infoBitmap.Get(i) for its induction value and leaves the function when a bit is
-		// missing, whose completed exit dominates the publication (classic, range and rotated loop shapes alike)
-		for _, l := range naturalLoops(gm) {
-			if l.Blocks[call.Block()] {
-				continue
-			}
-			tests := false
-			for b := range l.Blocks {
-				for _, in := range b.Instrs {
-					c, ok := in.(*ssa.Call)
-					if !ok {
-						continue
-					}
-					cal := c.Call.StaticCallee()
-					if cal == nil || cal.Name() != "Get" || relPkg(cal) != "bitmap" {
-						continue
-					}
-					if fv, _ := loadedField(c.Call.Args[0]); fv != ib {
-						continue
-					}
-					// the argument varies with the loop: a phi of the loop, or derived from one
-					varies := false
-					var walk func(v ssa.Value, d int)
-					walk = func(v ssa.Value, d int) {
-						if d > 4 || v == nil {
-							return
+		var allPresentAt func(at ssa.Instruction, depth int) bool
+		allPresentAt = func(at ssa.Instruction, depth int) bool {
+			allPresent := false
+			// (a) a loop that tests infoBitmap.Get(i) for its induction value and leaves the function when a bit is
+			// missing, whose completed exit dominates the publication (classic, range and rotated loop shapes alike)
+			for _, l := range naturalLoops(at.Parent()) {
+				if l.Blocks[at.Block()] {
+					continue
+				}
+				tests := false
+				for b := range l.Blocks {
+					for _, in := range b.Instrs {
+						c, ok := in.(*ssa.Call)
+						if !ok {
+							continue
 						}
-						if ph, ok := v.(*ssa.Phi); ok && l.Blocks[ph.Block()] {
-							varies = true
-							return
+						cal := c.Call.StaticCallee()
+						if cal == nil || cal.Name() != "Get" || relPkg(cal) != "bitmap" {
+							continue
 						}
-						if in2, ok := v.(ssa.Instruction); ok {
-							for _, op := range in2.Operands(nil) {
-								if op != nil && *op != nil {
-									walk(*op, d+1)
-								}
+						if fv, _ := loadedField(c.Call.Args[0]); fv != ib {
+							continue
+						}
+						// the argument varies with the loop: a phi of the loop, or derived from one
+						varies := false
+						var walk func(v ssa.Value, d int)
+						walk = func(v ssa.Value, d int) {
+							if d > 4 || v == nil {
+								return
 							}
-						}
-					}
-					walk(c.Call.Args[1], 0)
-					if !varies {
-						continue
-					}
-					// the missing-bit edge does not reach the publication
-					for _, ref := range *c.Referrers() {
-						var iff *ssa.If
-						pol := true
-						switch x := ref.(type) {
-						case *ssa.If:
-							iff = x
-						case *ssa.UnOp:
-							if x.Op == token.NOT {
-								for _, r2 := range *x.Referrers() {
-									if i2, ok := r2.(*ssa.If); ok {
-										iff, pol = i2, false
+							if ph, ok := v.(*ssa.Phi); ok && l.Blocks[ph.Block()] {
+								varies = true
+								return
+							}
+							if in2, ok := v.(ssa.Instruction); ok {
+								for _, op := range in2.Operands(nil) {
+									if op != nil && *op != nil {
+										walk(*op, d+1)
 									}
 								}
 							}
 						}
-						if iff == nil {
+						walk(c.Call.Args[1], 0)
+						if !varies {
 							continue
 						}
-						missing := iff.Block().Succs[1]
-						if !pol {
-							missing = iff.Block().Succs[0]
-						}
-						if !l.Blocks[missing] && !reachableFrom(missing)[call.Block()] {
-							tests = true
+						// the missing-bit edge does not reach the publication
+						for _, ref := range *c.Referrers() {
+							var iff *ssa.If
+							pol := true
+							switch x := ref.(type) {
+							case *ssa.If:
+								iff = x
+							case *ssa.UnOp:
+								if x.Op == token.NOT {
+									for _, r2 := range *x.Referrers() {
+										if i2, ok := r2.(*ssa.If); ok {
+											iff, pol = i2, false
+										}
+									}
+								}
+							}
+							if iff == nil {
+								continue
+							}
+							missing := iff.Block().Succs[1]
+							if !pol {
+								missing = iff.Block().Succs[0]
+							}
+							if !l.Blocks[missing] && !reachableFrom(missing)[at.Block()] {
+								tests = true
+							}
 						}
 					}
 				}
+				if !tests {
+					continue
+				}
+				for _, x := range l.cleanExits() {
+					if x.Dominates(at.Block()) {
+						allPresent = true
+					}
+				}
 			}
-			if !tests {
-				continue
-			}
-			for _, x := range l.cleanExits() {
-				if x.Dominates(call.Block()) {
+			// (b) a dominating whole-bitmap test: infoBitmap.All(n) == true, infoBitmap.Count() == n
+			for _, g := range guardsOf(at.Block()) {
+				g = g.norm()
+				var c *ssa.Call
+				switch x := g.Cond.(type) {
+				case *ssa.Call:
+					if g.Pol {
+						c = x
+					}
+				case *ssa.BinOp:
+					if op, a, bb, ok := cmpFact(g); ok && (op == token.EQL || op == token.GEQ) {
+						if cc, ok := stripIntConv(a).(*ssa.Call); ok {
+							c = cc
+						} else if cc, ok := stripIntConv(bb).(*ssa.Call); ok && op == token.EQL {
+							c = cc
+						}
+					}
+				}
+				if c == nil || len(c.Call.Args) == 0 {
+					continue
+				}
+				cal := c.Call.StaticCallee()
+				if cal == nil || relPkg(cal) != "bitmap" || (cal.Name() != "All" && cal.Name() != "Count") {
+					continue
+				}
+				if fv, _ := loadedFieldAny(c.Call.Args[0]); fv == ib {
 					allPresent = true
 				}
 			}
-		}
-		// (b) a dominating whole-bitmap test: infoBitmap.All(n) == true, infoBitmap.Count() == n
-		for _, g := range guardsOf(call.Block()) {
-			g = g.norm()
-			var c *ssa.Call
-			switch x := g.Cond.(type) {
-			case *ssa.Call:
-				if g.Pol {
-					c = x
+			if allPresent || depth > 2 {
+				return allPresent
+			}
+			// (c) a dominating test of a boolean helper that says so (if !haveAllMetadata(t) { return }): every return of
+			// the helper that can yield true comes after the complete loop / whole-bitmap test
+			for _, g := range guardsOf(at.Block()) {
+				g = g.norm()
+				c, ok := g.Cond.(*ssa.Call)
+				if !ok || !g.Pol || c.Call.IsInvoke() {
+					continue
 				}
-			case *ssa.BinOp:
-				if op, a, bb, ok := cmpFact(g); ok && (op == token.EQL || op == token.GEQ) {
-					if cc, ok := stripIntConv(a).(*ssa.Call); ok {
-						c = cc
-					} else if cc, ok := stripIntConv(bb).(*ssa.Call); ok && op == token.EQL {
-						c = cc
+				h := c.Call.StaticCallee()
+				if h == nil || h.Blocks == nil || relPkg(h) != "tor" {
+					continue
+				}
+				some, all := false, true
+				for _, ret := range returnsOf(h) {
+					rv := retResults(ret)
+					if len(rv) != 1 {
+						all = false
+						break
+					}
+					if b, isb := constBool(rv[0]); isb && !b {
+						continue
+					}
+					some = true
+					if !allPresentAt(ret, depth+1) {
+						// `return bitmap.All(n)` itself
+						ok2 := false
+						if cc, isC := rv[0].(*ssa.Call); isC {
+							if cal := cc.Call.StaticCallee(); cal != nil && relPkg(cal) == "bitmap" && cal.Name() == "All" && len(cc.Call.Args) > 0 {
+								if fv, _ := loadedFieldAny(cc.Call.Args[0]); fv == ib {
+									ok2 = true
+								}
+							}
+						}
+						if !ok2 {
+							all = false
+						}
 					}
 				}
+				if some && all {
+					return true
+				}
 			}
-			if c == nil || len(c.Call.Args) == 0 {
-				continue
+			// (d) inside a private helper of gotMetadata: established at every call of it
+			f := at.Parent()
+			if f != gm && relPkg(f) == "tor" && p.inUnitOf(f, gm) {
+				cs2, esc2 := p.callSitesOf(f)
+				if len(esc2) == 0 && len(cs2) > 0 {
+					okAll := true
+					for _, c2 := range cs2 {
+						ci, isI := c2.(ssa.Instruction)
+						if !isI || !allPresentAt(ci, depth+1) {
+							okAll = false
+						}
+					}
+					return okAll
+				}
 			}
-			cal := c.Call.StaticCallee()
-			if cal == nil || relPkg(cal) != "bitmap" || (cal.Name() != "All" && cal.Name() != "Count") {
-				continue
-			}
-			if fv, _ := loadedFieldAny(c.Call.Args[0]); fv == ib {
-				allPresent = true
-			}
+			return false
 		}
+		allPresent := allPresentAt(call, 0)
 		r.Check(allPresent, "R2", "gotMetadata/all-blocks-present", call.Pos(), "the hash is checked only after every block index is present", "the publication is not dominated by the exit of the all-blocks-present loop")
 	}
 	metadataCoAssign(r, "R2")
